@@ -565,3 +565,41 @@ Proof. exact nz_show_example. Qed.
 
 Print Assumptions C15_normalize_show_unchanged.
 Print Assumptions C15_normalize_show_example.
+
+(** ** histories that contain calls on the read-only maps of a document type (Model/DomReadOnly.v; see Properties/C13.v):
+    such a call changes nothing and stores no string; the lexical invariants and the round trip hold along the
+    extended histories [xop] under the same hypotheses about the OTHER calls ([plain_ops (nops_of xs)]) *)
+From XmlRs Require Import Model.DomReadOnly Proofs.DomReadOnly Proofs.DomReadOnlyC15.
+
+Theorem C15_printable_reachable_with_readonly : forall xs w,
+  WPrintable w -> Forall op_facts_ok (plain_ops (nops_of xs)) -> WPrintable (run_x w xs).
+Proof. exact printable_reachable_with_readonly. Qed.
+
+Theorem C15_lex15_reachable_with_readonly : forall xs w,
+  WLex15 w -> Forall op_facts_ok (plain_ops (nops_of xs)) -> Forall op_facts_ok15 (plain_ops (nops_of xs)) -> WLex15 (run_x w xs).
+Proof. exact lex15_reachable_with_readonly. Qed.
+
+Theorem C15_piflag_reachable_with_readonly : forall xs w, WPiFlag w -> WPiFlag (run_x w xs).
+Proof. exact piflag_reachable_with_readonly. Qed.
+
+Theorem C15_edited_roundtrip_reachable_with_readonly : forall init xs k s,
+  WInv2 init -> WLex15 init -> Forall op_facts_ok (plain_ops (nops_of xs)) -> Forall op_facts_ok15 (plain_ops (nops_of xs)) ->
+  doc_at (run_x init xs) k = Some s -> Known15 s = false ->
+  display (doc_of_store s) = show_doc s /\ from_raw (show_doc s) = OOk ([], doc_of_store s).
+Proof. exact edited_roundtrip_reachable_with_readonly. Qed.
+
+Theorem C15_edited_roundtrip_merged_reachable_with_readonly : forall init xs k s,
+  WInv2 init -> WLex15 init -> Forall op_facts_ok (plain_ops (nops_of xs)) -> Forall op_facts_ok15 (plain_ops (nops_of xs)) ->
+  doc_at (run_x init xs) k = Some s -> Known15m s = false ->
+  from_raw (show_doc s) = OOk ([], norm_doc (doc_of_store s)).
+Proof. exact edited_roundtrip_m_reachable_with_readonly. Qed.
+
+Example C15_readonly_example : WPrintable ro_world /\ WPrintable (run_x ro_world ro_ops).
+Proof. split; [exact ro_world_printable | exact ro_example15]. Qed.
+
+Print Assumptions C15_printable_reachable_with_readonly.
+Print Assumptions C15_lex15_reachable_with_readonly.
+Print Assumptions C15_piflag_reachable_with_readonly.
+Print Assumptions C15_edited_roundtrip_reachable_with_readonly.
+Print Assumptions C15_edited_roundtrip_merged_reachable_with_readonly.
+Print Assumptions C15_readonly_example.
